@@ -10,10 +10,31 @@ from . import axioms as AX
 from . import source as S
 
 REGISTRY = []
+SUMMARIES = {}      # native function -> Summary
+
+
+class Summary:
+    def __init__(self, target, handler, proved_by, assumes, prop):
+        self.target, self.handler, self.proved_by, self.assumes, self.prop = target, handler, proved_by, assumes, prop
+
+
+def summary(target, proved_by, assumes, prop=None):
+    """Register a callee contract in the form used at call sites: `handler(I, args, kwargs, node)` replaces the
+    body of `target` when it is called from another function under contract (modular verification).  Every
+    fact it assumes must be the name of an obligation discharged for the contract `proved_by` in the same
+    run (checked by the CLI)."""
+    def deco(fn):
+        SUMMARIES[resolve_target(target)] = Summary(target, fn, proved_by, list(assumes), prop)
+        return fn
+    return deco
 
 
 class Contract:
-    def __init__(self, fn, prop, name, targets, instances, canary, opts, bounded_only, note, cross):
+    def __init__(self, fn, prop, name, targets, instances, canary, opts, bounded_only, note, cross, thorough=()):
+        self.thorough = [tuple(i) if isinstance(i, (tuple, list)) else (i,) for i in thorough]
+        self._init(fn, prop, name, targets, instances, canary, opts, bounded_only, note, cross)
+
+    def _init(self, fn, prop, name, targets, instances, canary, opts, bounded_only, note, cross):
         self.fn = fn
         self.prop = prop
         self.name = name
@@ -27,13 +48,13 @@ class Contract:
 
 
 def contract(prop, name=None, targets=(), instances=((),), canary=False, opts=None, bounded_only=False,
-             note="", cross=12):
+             note="", cross=12, thorough=()):
     """Register a contract.  `targets`: functions of the repository put under contract by it.
     `instances`: list of parameter tuples (finite dispatch enumeration: classes, table keys ...)."""
     def deco(fn):
         for pr in ((prop,) if isinstance(prop, str) else tuple(prop)):
             REGISTRY.append(Contract(fn, pr, name or fn.__name__, tuple(targets), [tuple(i) if isinstance(i, (tuple, list)) else (i,) for i in instances],
-                                     canary, opts, bounded_only, note, cross))
+                                     canary, opts, bounded_only, note, cross, thorough))
         return fn
     return deco
 
@@ -151,6 +172,29 @@ def model_values(model, inputs):
         elif kind == "bool":
             v = model.eval(z3.Bool(name), model_completion=True)
             vals[name] = z3.is_true(v)
+        elif kind == "array":
+            import itertools
+            dims = []
+            for d in desc[1]:
+                dv = model.eval(d, model_completion=True)
+                dims.append(max(0, dv.as_long()) if z3.is_int_value(dv) else 0)
+            if any(d > 40 for d in dims):
+                continue
+            sorts = [z3.IntSort()] * len(dims)
+
+            def build(prefix, k):
+                if k == len(dims):
+                    args = [z3.IntVal(i) for i in prefix]
+                    if desc[3] == "bool":
+                        return z3.is_true(model.eval(z3.Function(name + "_b", *sorts, z3.BoolSort())(*args), model_completion=True))
+                    if desc[2] and z3.is_true(model.eval(z3.Function(name + "_n", *sorts, z3.BoolSort())(*args), model_completion=True)):
+                        return float("nan")
+                    v = model.eval(z3.Function(name + "_v", *sorts, z3.RealSort())(*args), model_completion=True)
+                    if z3.is_algebraic_value(v):
+                        v = v.approx(20)
+                    return float(fractions.Fraction(v.numerator_as_long(), v.denominator_as_long()))
+                return [build(prefix + [i], k + 1) for i in range(dims[k])]
+            vals[name] = build([], 0)
     return vals
 
 
@@ -172,6 +216,7 @@ class InstanceResult:
         self.cross_checked = 0
         self.cross_skipped = 0
         self.feas_unknown = 0
+        self.summaries_used = []
 
     def to_dict(self):
         return self.__dict__
@@ -197,7 +242,7 @@ def run_concrete(c, inst, values=None, rng=None):
 def prove_instance(c, inst, tier="quick", seed=0, lib_factory=Lib):
     res = InstanceResult(c, inst)
     t0 = time.time()
-    timeout_ms = int(os.environ.get("PYVC_TIMEOUT_MS", 20000 if tier == "quick" else 120000))
+    timeout_ms = int(os.environ.get("PYVC_TIMEOUT_MS", 30000 if tier == "quick" else 180000))
     S.reset_used()
     try:
         for t in c.targets:
@@ -205,11 +250,17 @@ def prove_instance(c, inst, tier="quick", seed=0, lib_factory=Lib):
             if not S.is_repo_function(obj) and not isinstance(obj, type) and not isinstance(obj, (dict, tuple)):
                 raise Unsupported(f"contract target {t} is not a repository function/class/table")
         kits = []
+        used_summaries = set()
 
         def run(ctx):
             K = SymKit(ctx, lib_factory(), opts=dict(c.opts))
+            K.I.summaries = {f: sm for f, sm in SUMMARIES.items() if sm.target not in c.opts.get("inline", ())}
+            K.I.summaries_used = used_summaries
             kits.append(K)
-            c.fn(K, *inst)
+            try:
+                c.fn(K, *inst)
+            finally:
+                K.I.close_generators()
             return K
         results = explore(run, max_paths=c.opts.get("max_paths", 600), label=f"{c.name}[{res.instance}]")
         res.paths = len(results)
@@ -236,6 +287,7 @@ def prove_instance(c, inst, tier="quick", seed=0, lib_factory=Lib):
             obligs.extend(ctx.obligs)
         for K in kits:
             inputs.update(K.inputs)
+        res.summaries_used = sorted(used_summaries)
         res.assumptions = sorted(set(res.assumptions))
         res.functions = S.used_functions()
         # discharge
@@ -349,6 +401,8 @@ def run_property(prop, tier="quick", seed=0, jobs=None, only=None):
             continue
         if only and only not in c.name:
             continue
+        if tier == "thorough" and c.thorough:
+            c.instances = list(c.instances) + [t for t in c.thorough if t not in c.instances]
         for j in range(len(c.instances)):
             tasks.append((i, j, tier, seed))
     jobs = jobs or int(os.environ.get("PYVC_JOBS", min(16, os.cpu_count() or 4)))
